@@ -39,7 +39,48 @@ def shards(tier, seed):
             out.append({"mode": mode, "i": i, "n": N[tier][mode], "hseed": seed * 1000 + len(out)})
     for o1 in _ENUM_BIN:
         out.append({"mode": "enum", "i": 0, "n": 0, "hseed": 0, "wmax": 2 if tier == "quick" else 3, "op1": o1})
+    for w in FOLD_WIDTHS[tier]:
+        out.append({"mode": "fold", "i": 0, "n": 0, "hseed": 0, "width": w})
     return out
+
+
+FOLD_WIDTHS = {"quick": (1, 8, 31, 32, 53, 54, 55, 63, 64, 65, 128), "thorough": (1, 2, 3, 7, 8, 9, 16, 31, 32, 33, 52, 53, 54, 55, 56, 63, 64, 65, 96, 127, 128, 129, 256)}
+
+
+def _fold_values(n):
+    m = (1 << n) - 1
+    vals = set(ir.boundary_values(n))
+    # values a float / a 32- or 64-bit host integer cannot carry, and small divisors
+    vals |= {v & m for v in (3, 5, 10, (1 << 53) + 1, (1 << 53) - 1, (1 << 24) + 1, (1 << 31) + 1, (1 << 32) + 1, (1 << 63) + 1, m - 2, m // 3, m // 3 * 2 + 1, (m >> 1) - 1, (m >> 1) + 2)}
+    return sorted(vals)
+
+
+def _fold_trees(n):
+    """Every binary operator and comparison on every pair of boundary constants of the width (fully concrete: eager folding), the
+    same with the constant pair below a symbolic operand, and the unary / parametric operators on every boundary constant."""
+    vals = _fold_values(n)
+    x = ("var", f"v0_{n}", n)
+    for a in vals:
+        ca = ("const", a, n)
+        for b in vals:
+            cb = ("const", b, n)
+            for o in ir.BV_BIN:
+                yield (o, ca, cb)
+            for o in ir.BV_CMP:
+                yield (o, ca, cb)
+            if a <= 2 or b <= 2 or a == vals[-1]:
+                for o in ("bvsdiv", "bvsrem", "bvudiv", "bvurem", "bvmul"):
+                    yield ("bvxor", x, (o, ca, cb))
+        yield ("bvneg", ca)
+        yield ("bvnot", ca)
+        if n % 8 == 0:
+            yield ("bswap", ca)
+        for k in sorted({1, 7, 8, n, 64}):
+            yield ("zext", k, ca)
+            yield ("sext", k, ca)
+        for hi in sorted({0, n // 2, n - 1}):
+            for lo in sorted({0, hi // 2, hi}):
+                yield ("extract", hi, lo, ca)
 
 
 def check_case(tree, spell, use_z3=True):
@@ -87,7 +128,7 @@ def replay(case):
     return fails
 
 
-def _body(ctx, mode):
+def _body(ctx, mode, use_z3=True):
     def body(v):
         tree, spell = v
         tname = None
@@ -95,7 +136,7 @@ def _body(ctx, mode):
             tname, tree = tree
         case = {"tree": tree, "spell": spell}
         exprcheck.reset_caches()
-        fails, info = check_case(tree, spell)
+        fails, info = check_case(tree, spell, use_z3=use_z3)
         if tname is not None:
             rc = [c for c in info["classes"] if c in ("rewritten", "folded-symbolic", "folded-concrete", "untouched", "leaf")]
             info["classes"].append(f"tpl:{tname}:{'changed' if rc and rc[0] not in ('untouched', 'leaf') else 'asis'}")
@@ -143,6 +184,15 @@ def run_shard(shard, ctx):
         ctx.extra["enumerated_two_operator_shapes"] = n
         ctx.extra["exhaustive"] = True
         ctx.extra["exhaustive_subdomain"] = f"all op2(op1(x,c1),c2) and mirrored/compare/unary variants, all constants, width 1..{shard['wmax']}"
+        return
+    if mode == "fold":
+        n = 0
+        for tree in _fold_trees(shard["width"]):
+            if ctx.out_of_time():
+                break
+            n += 1
+            _body(ctx, "fold", use_z3=False)((tree, n))
+        ctx.extra["enumerated_constant_foldings"] = n
         return
     tier = ctx.tier
     if mode == "random":
